@@ -7,6 +7,25 @@ Uses only extension points ANDES offers or per-instance wrapping of bound method
 import numpy as np
 
 
+def declared_time_constants(ss):
+    """Time constant of every differential equation as declared by the owning model *now*: the value array of the
+    parameter / service named as ``t_const`` of each state (1 where none is declared), gathered per device through the
+    state's own addresses.  Independent of dae.Tf and of the integrator's mass matrix, which are copies ANDES maintains."""
+    T = np.ones(ss.dae.n)
+    for mdl in ss.models.values():
+        if mdl.n == 0:
+            continue
+        for var in list(mdl.states.values()) + list(mdl.states_ext.values()):
+            tc = getattr(var, 't_const', None)
+            if tc is None or len(np.atleast_1d(var.a)) == 0:
+                continue
+            a = np.asarray(var.a, dtype=int)
+            v = np.asarray(tc.v, dtype=float)
+            if a.max(initial=-1) < ss.dae.n and len(v) == len(a):
+                T[a] = v
+    return T
+
+
 class Monitor:
     def __init__(self, ss, keep_vectors=True):
         self.ss = ss
@@ -100,7 +119,11 @@ class Monitor:
             rec['y'] = dae.y.copy()
             rec['f'] = dae.f.copy()
             rec['g'] = dae.g.copy()
-            rec['Tf'] = np.array(dae.Tf, dtype=float)      # time constants in effect at this accepted point
+            # time constants the models declare at this accepted point (not ANDES' cached copies dae.Tf / TDS.Teye)
+            try:
+                rec['Tf'] = declared_time_constants(self.ss)
+            except Exception:
+                rec['Tf'] = np.array(dae.Tf, dtype=float)
         if self.watch:
             rec['watch'] = {k: fn() for k, fn in self.watch.items()}
         if self.want_rowsum and tds.Ac is not None:
